@@ -476,7 +476,7 @@ fn hyphenate_impl(hyphenater: &Hyphenator, list: &[ds::Horizontal]) -> Vec<ds::H
                                     char: ligature.c,
                                     font: hyphenation_font,
                                     includes_left_boundary: ligature.includes_left_boundary,
-                                    includes_right_boundary: ligature.includes_left_boundary,
+                                    includes_right_boundary: ligature.includes_right_boundary,
                                     original_chars: ligature.original,
                                 }
                                 .into(),
